@@ -368,6 +368,13 @@ func (jf *joinFlow) run(start *ssa.Function, initMode string, h jhandler) *Flow 
 	fl.Instr = func(fr *Frame, st string, in ssa.Instruction) []string {
 		return applyEvents(fr, st, jf.instrEvents(fr, in))
 	}
+	fl.Call = func(fr *Frame, st string, c ssa.CallInstruction, deferred bool) (bool, []string) {
+		// close(output), also when it runs as a deferred call
+		if bi, isB := c.Common().Value.(*ssa.Builtin); isB && bi.Name() == "close" && len(c.Common().Args) == 1 && p.chanRole(c.Common().Args[0]) == "field:output" {
+			return true, applyEvents(fr, st, []jev{{kind: "outclose", in: c}})
+		}
+		return false, nil
+	}
 	fl.RunDefersHook = func(fr *Frame, st string, in *ssa.RunDefers) []string {
 		return applyEvents(fr, st, []jev{{kind: "rundefers", in: in}})
 	}
